@@ -70,8 +70,13 @@ class Deep:
         # a shutdown closed the task handler: without this a second start() fails in its first config update
         self.task_handler.open()
         self.trigger_handler.start()
-        self.grpc.start()
-        self.poll.start()
+        try:
+            self.grpc.start()
+            self.poll.start()
+        except BaseException:
+            # we could not start: do not leave our trace hooks installed (shutdown() does nothing while not started)
+            self.trigger_handler.shutdown()
+            raise
         self.started = True
 
     def shutdown(self):
